@@ -253,7 +253,7 @@ Definition output_for_trait (a : trait_attr) (h : head) (t : item_trait) : resul
       let where_ := mk_pred (impl_t_bounds a contains_async (t_name t) tg) :: p_items (tg_where tg) in
       Ok ([ITrait trait_def] ++ deleg ++
           [IImpl (mkImpl impl_subs false
-                         (mkGen true (p_of_list (impl_params true false (tg_params tg))) (where_of_list where_))
+                         (mkGen true (p_of_list (trait_impl_params (tg_params tg))) (where_of_list where_))
                          (Some ([TId (t_name t)] ++ print_arguments false (tg_params tg)))
                          impl_path_toks methods)])
   end.
